@@ -580,3 +580,111 @@ func (c *Ctx) reachCountRule(p *Program, rule, what string, f *ssa.Function, wan
 	}
 	c.ok(rule, fname(f)+": "+what, "reachable call-site counts match", p.fnPos(f))
 }
+
+// loopPassesThrough: under the given abstract arguments, every executable cycle of f's CFG
+// that contains a block calling `anchor` ... more simply: every executable cycle through any
+// loop header passes through a call selected by via. Used for "each element of a batch is
+// accumulated / checked": a `continue` that skips the accumulation creates a cycle avoiding it.
+func (c *Ctx) loopPassesThrough(p *Program, rule, what string, f *ssa.Function, args map[string]lat, viaDesc string, via func(ssa.Instruction) bool) {
+	if f == nil {
+		c.undecided(rule, what, "anchor function does not resolve", "")
+		return
+	}
+	construct := fname(f) + ": " + what
+	q := &GuardQuery{P: p, Root: f}
+	if len(args) > 0 {
+		q.Args = make([]lat, len(f.Params))
+		for i := range q.Args {
+			q.Args[i] = latTop
+		}
+		for n, v := range args {
+			i := paramIdx(f, n)
+			if i < 0 {
+				c.undecided(rule, construct, "parameter "+n+" does not exist", p.fnPos(f))
+				return
+			}
+			q.Args[i] = v
+		}
+	}
+	r := runGuard(q)
+	viaBlocks := map[int]bool{}
+	for _, b := range f.Blocks {
+		for _, in := range b.Instrs {
+			if via(in) {
+				viaBlocks[b.Index] = true
+			}
+		}
+	}
+	if len(viaBlocks) == 0 {
+		c.bad(rule, construct, "no instruction ["+viaDesc+"] found", p.fnPos(f))
+		return
+	}
+	// the via instruction must itself lie on an executable cycle (it is inside the loop)
+	succ := map[int][]int{}
+	for ed := range r.RootExec {
+		succ[ed[0]] = append(succ[ed[0]], ed[1])
+	}
+	reach := func(from int, avoid map[int]bool) map[int]bool {
+		seen := map[int]bool{}
+		stack := []int{}
+		for _, s := range succ[from] {
+			if !avoid[s] && !seen[s] {
+				seen[s] = true
+				stack = append(stack, s)
+			}
+		}
+		for len(stack) > 0 {
+			n := stack[len(stack)-1]
+			stack = stack[:len(stack)-1]
+			for _, s := range succ[n] {
+				if !avoid[s] && !seen[s] {
+					seen[s] = true
+					stack = append(stack, s)
+				}
+			}
+		}
+		return seen
+	}
+	onCycle := false
+	for vb := range viaBlocks {
+		if reach(vb, nil)[vb] {
+			onCycle = true
+		}
+	}
+	if !onCycle {
+		c.bad(rule, construct, "["+viaDesc+"] is not inside an executable loop", p.fnPos(f))
+		return
+	}
+	// cycles avoiding all via blocks: only cycles of the loop(s) that contain a via block matter,
+	// i.e. blocks from which a via block is reachable and which are reachable from a via block
+	var bad []string
+	for _, b := range f.Blocks {
+		if viaBlocks[b.Index] {
+			continue
+		}
+		inLoop := false
+		for vb := range viaBlocks {
+			if reach(vb, nil)[b.Index] && reach(b.Index, nil)[vb] {
+				inLoop = true
+			}
+		}
+		if inLoop && reach(b.Index, viaBlocks)[b.Index] {
+			bad = append(bad, fmt.Sprintf("block %d (%s)", b.Index, p.pos(firstPos(b))))
+		}
+	}
+	if len(bad) > 0 {
+		sort.Strings(bad)
+		c.bad(rule, construct, "an iteration can complete without ["+viaDesc+"]: cycle through "+strings.Join(bad, ", "), p.fnPos(f))
+		return
+	}
+	c.ok(rule, construct, "every executable loop iteration passes through ["+viaDesc+"]", p.fnPos(f))
+}
+
+func firstPos(b *ssa.BasicBlock) token.Pos {
+	for _, in := range b.Instrs {
+		if in.Pos().IsValid() {
+			return in.Pos()
+		}
+	}
+	return token.NoPos
+}
